@@ -1,1 +1,259 @@
-"""(job kinds registered here)"""
+"""C19: compose(inputs, outputs)."""
+from __future__ import annotations
+
+import random
+import warnings
+
+import networkx as nx
+
+from . import bootstrap as B
+from . import probes, spec as S
+from .histjobs import observed, op_call, op_setup
+from .jobs import REGISTRY, Collector, job
+from .sym import Sym, same, short
+
+
+def gen_comp_spec(rng):
+    from .sched import gen_shape
+
+    sp = gen_shape(rng, nmin=2, nmax=7, flags=True, reuse=True, mc_max=3, seq_rate=0.1)
+    npar = rng.randint(0, 2)
+    ndef = rng.randint(0, npar)
+    sp["params"] = ["p%d" % i for i in range(npar)]
+    sp["defaults"] = {"p%d" % i: ("D", i) for i in range(npar - ndef, npar)}
+    for nd in sp["nodes"]:
+        nd["args"] = [a for a in nd["args"] if a[0] != "p"]
+        for p in sp["params"]:
+            if rng.random() < 0.25:
+                if rng.random() < 0.3:
+                    nd["kwargs"]["kw_" + p] = ["p", p]
+                else:
+                    nd["args"].append(["p", p])
+    # some setup nodes (ancestor closed, no DAG params, no flags)
+    g = S.site_graph(sp)
+    setup = set()
+    for i in range(len(sp["nodes"])):
+        nd = sp["nodes"][i]
+        uses_param = any(a[0] == "p" for a in nd["args"]) or any(a[0] == "p" for a in nd["kwargs"].values())
+        reused = sum(1 for m in sp["nodes"] if m["fn"] == nd["fn"]) > 1
+        if not uses_param and not reused and nd["active"] is None and all(j in setup for j in g.predecessors(i)) and rng.random() < 0.2:
+            setup.add(i)
+            sp["fns"][nd["fn"]]["setup"] = True
+    # tags: unique and shared
+    for i, nd in enumerate(sp["nodes"]):
+        r = rng.random()
+        if r < 0.2:
+            nd["tag"] = "u%d" % i
+        elif r < 0.3:
+            nd["tag"] = "shared"
+    sp["is_async"] = rng.random() < 0.25
+    return sp, setup
+
+
+def param_node(sp, p):
+    return "%s>!>%s" % (sp["name"], p)
+
+
+def fingerprint(d):
+    out = []
+    for k, xn in d.exec_nodes.items():
+        out.append((k, type(xn).__name__, tuple((u.id, tuple(u.key)) for u in xn.args),
+                    tuple(sorted((kk, u.id, tuple(u.key)) for kk, u in xn.kwargs.items())),
+                    None if xn.active is None else (xn.active.id, tuple(xn.active.key)), xn.priority, xn.is_sequential,
+                    str(xn.tag), xn.setup, xn.debug))
+    return (tuple(out), tuple(sorted(d.results.keys())), tuple(u.id for u in d.input_uxns), d.max_concurrency,
+            tuple(sorted(d.graph_ids.edges)))
+
+
+def comp_case(col, rng, cidx, jobref=None):
+    pid = "C19"
+    sp, setup = gen_comp_spec(rng)
+    plain = {name: probes.mkprobe(name, shape=tuple(fs["shape"]) if fs.get("shape") else None) for name, fs in sp["fns"].items()}
+    ids = S.node_ids(sp)
+    n = len(ids)
+    g = S.site_graph(sp)
+    try:
+        d, _e, _p = S.build_tawazi(sp, plain=plain)
+    except BaseException as e:  # noqa: BLE001
+        col.inconclusive.append("generated compose program failed to build: %r" % (e,))
+        return
+    rp = {"kind": "rerun_job", "job": dict(jobref or {}, n_cases=cidx + 1), "source": S.render(sp)}
+    params = sp["params"]
+    required = [p for p in params if p not in sp["defaults"]]
+    orig_args = [Sym("orig", cidx, p) for p in params]
+    pre_setup = bool(setup) and rng.random() < 0.5
+    setup_vals = {}
+    if pre_setup:
+        B.reset_log()
+        r = probes.run_op("setup", lambda: op_setup(d, {}))
+        _ent, vals = observed(B.snapshot())
+        if r[0] != "ok":
+            col.violation(pid, "setup_of_original_raised", dict(exc=repr(r[1])[:200], source=S.render(sp)), rp)
+            return
+        setup_vals = {i: vals[ids[i]] for i in setup if ids[i] in vals}
+
+    def run_original(tag):
+        ref = S.run_reference(sp, orig_args, plain, env_values=dict(setup_vals))
+        B.reset_log()
+        probes.reset_counts()
+        r = probes.run_op(tag, lambda: op_call(d, orig_args))
+        ent, vals = observed(B.snapshot())
+        for i in setup:
+            if i not in setup_vals and ids[i] in vals:
+                setup_vals[i] = vals[ids[i]]
+        return ref, r, ent
+
+    before = None
+    if rng.random() < 0.6:
+        before = run_original("original_before")
+    fp0 = fingerprint(d)
+    for _k in range(4):
+        ins = rng.sample(range(n), rng.randint(0, min(2, n)))
+        outs = rng.sample(range(n), rng.randint(1, min(2, n)))
+        if set(ins) & set(outs):
+            col.counters["skipped_inputs_overlap_outputs"] += 1
+            continue
+        use_ellipsis = rng.random() < 0.15 and not ins
+        par_in = list(params) if use_ellipsis else [p for p in params if rng.random() < 0.6]
+        # alias forms
+        ambiguous = False
+
+        def alias(i):
+            nonlocal ambiguous
+            t = sp["nodes"][i].get("tag")
+            r = rng.random()
+            if t is not None and r < 0.4:
+                if sum(1 for m in sp["nodes"] if m.get("tag") == t) > 1:
+                    ambiguous = True
+                return t
+            if r < 0.7:
+                return ids[i]
+            return d.get_node_by_id(ids[i])
+
+        in_alias = ... if use_ellipsis else [alias(i) for i in ins] + [param_node(sp, p) for p in par_in]
+        single_out = len(outs) == 1 and rng.random() < 0.5
+        out_alias = alias(outs[0]) if single_out else [alias(o) for o in outs]
+        # expected errors ---------------------------------------------------------------------------------
+        # parameters are nodes of the dependency relation
+        def anc_params(i):
+            ps = set()
+            for a in nx.ancestors(g, i) | {i}:
+                nd = sp["nodes"][a]
+                for x in list(nd["args"]) + list(nd["kwargs"].values()) + ([nd["active"]] if nd["active"] else []):
+                    if x[0] == "p":
+                        ps.add(x[1])
+            return ps
+
+        exp_err = ambiguous
+        exp_err = exp_err or any(nx.has_path(g, a, b) for a in ins for b in ins if a != b)
+        exp_err = exp_err or any(p in anc_params(i) for i in ins for p in par_in)
+        need_nodes, need_par = set(), set()
+
+        def walk(i):
+            if i in ins or i in need_nodes:
+                return
+            need_nodes.add(i)
+            nd = sp["nodes"][i]
+            for x in list(nd["args"]) + list(nd["kwargs"].values()) + ([nd["active"]] if nd["active"] else []):
+                if x[0] == "p":
+                    need_par.add(x[1])
+            for j, _kk in S.deps_of(nd):
+                walk(j)
+
+        for o in outs:
+            walk(o)
+        if any(i in setup and (nx.ancestors(g, i) & set(ins)) for i in need_nodes):
+            # a setup node downstream of a composed input would depend on a DAG argument (forbidden by C11's build rule):
+            # the statement does not say what compose should do; not generated (DESIGN 6.11)
+            col.counters["skipped_setup_node_downstream_of_input"] += 1
+            continue
+        missing = [p for p in need_par if p not in par_in and p in required]
+        exp_err = exp_err or bool(missing)
+        col.evaluations += 1
+        col.counters["c19_compose_calls"] += 1
+        rp2 = dict(rp, inputs=S.jsonable(in_alias if in_alias is not ... else "..."), outputs=S.jsonable(out_alias))
+        try:
+            with warnings.catch_warnings():
+                warnings.simplefilter("ignore")
+                c = d.compose("cmp%d_%d" % (cidx, _k), in_alias, out_alias)
+        except ValueError as e:
+            col.counters["c19_valueerrors"] += 1
+            if not exp_err:
+                col.violation(pid, "compose_raised_ValueError_for_valid_request", dict(
+                    inputs=S.jsonable(in_alias if in_alias is not ... else "..."), outputs=S.jsonable(out_alias), exc=str(e)[:200], source=S.render(sp)), rp2)
+            continue
+        except BaseException as e:  # noqa: BLE001
+            col.violation(pid, "compose_raised_internal_error", dict(
+                inputs=S.jsonable(in_alias if in_alias is not ... else "..."), outputs=S.jsonable(out_alias), exc=repr(e)[:300], source=S.render(sp)), rp2)
+            continue
+        if exp_err:
+            why = "ambiguous alias" if ambiguous else ("missing required input %s" % missing if missing else "input depends on input")
+            col.violation(pid, "compose_accepted_invalid_request", dict(
+                why=why, inputs=S.jsonable(in_alias if in_alias is not ... else "..."), outputs=S.jsonable(out_alias), source=S.render(sp)), rp2)
+            continue
+        # run the composed DAG ------------------------------------------------------------------------------
+        in_vals = {i: Sym("in", cidx, _k, i) for i in ins}
+        par_vals = {p: Sym("pin", cidx, _k, p) for p in par_in}
+        vals = [in_vals[i] for i in ins] + [par_vals[p] for p in par_in]
+        if use_ellipsis:
+            vals = [par_vals[p] for p in params]
+        ref_args = [par_vals.get(p, sp["defaults"].get(p)) for p in params]
+        env = dict(in_vals)
+        for i in setup_vals:
+            if i in need_nodes:
+                env[i] = setup_vals[i]
+        ref = S.run_reference(sp, ref_args, plain, enabled=need_nodes, env_values=env)
+        B.reset_log()
+        probes.reset_counts()
+        r = probes.run_op("composed_call", lambda: op_call(c, vals))
+        ent, _vals = observed(B.snapshot())
+        col.evaluations += 1
+        col.counters["c19_composed_runs"] += 1
+        if any(nd["active"] is not None and nd["active"][0] in ("n", "u") and nd["active"][1] in ins for i2, nd in enumerate(sp["nodes"]) if i2 in need_nodes):
+            col.counters["c19_input_used_as_activation_flag"] += 1
+        if any(a[0] in ("n", "u") and a[1] in ins and (a[2] if a[0] == "n" else True) for i2, nd in enumerate(sp["nodes"]) if i2 in need_nodes for a in nd["args"]):
+            col.counters["c19_input_used_indexed"] += 1
+        if ref[0] != "ok":
+            col.counters["ref_raised_skipped"] += 1
+            continue
+        if r[0] != "ok":
+            col.violation(pid, "composed_dag_raised", dict(
+                exc=repr(r[1])[:300], inputs=S.jsonable(in_alias if in_alias is not ... else "..."), outputs=S.jsonable(out_alias), source=S.render(sp)), rp2)
+            continue
+        exp_vals = [S.deabs(ref[1].value.get(o)) for o in outs]
+        exp = exp_vals[0] if single_out else tuple(exp_vals)
+        if not same(exp, r[1]):
+            col.violation(pid, "composed_value_differs_from_substituted_pipeline", dict(
+                expected=short(exp, 300), got=short(r[1], 300), inputs=S.jsonable(in_alias if in_alias is not ... else "..."), outputs=S.jsonable(out_alias), source=S.render(sp)), rp2)
+        exp_run = {ids[i] for i in need_nodes if ref[1].active.get(i)}
+        if set(ent) != exp_run or any(v != 1 for v in ent.values()):
+            col.violation(pid, "composed_dag_ran_more_or_less_than_the_outputs_need", dict(
+                executed=sorted(ent.items()), expected=sorted(exp_run), inputs=S.jsonable(in_alias if in_alias is not ... else "..."), outputs=S.jsonable(out_alias), source=S.render(sp)), rp2)
+        col.hashes.add(S.spec_hash({"s": S.render(sp), "i": sorted(ins), "p": par_in, "o": outs}))
+        if col.evaluations % 150 < 3:
+            col.sample(dict(source=S.render(sp), inputs=S.jsonable(in_alias if in_alias is not ... else "..."), outputs=S.jsonable(out_alias),
+                            executed=sorted(ent), value=short(r[1], 200)))
+    # the original is unchanged ---------------------------------------------------------------------------
+    col.counters["c19_original_unchanged_checks"] += 1
+    if fingerprint(d) != fp0:
+        col.violation(pid, "original_dag_structure_changed_by_compose", dict(source=S.render(sp)), rp)
+    after = run_original("original_after")
+    ref, r, ent = after
+    if ref[0] == "ok":
+        if r[0] != "ok":
+            col.violation(pid, "original_dag_raises_after_compose", dict(exc=repr(r[1])[:300], source=S.render(sp)), rp)
+        else:
+            if not same(ref[1].result, r[1]):
+                col.violation(pid, "original_dag_value_changed_after_compose", dict(expected=short(ref[1].result, 300), got=short(r[1], 300), source=S.render(sp)), rp)
+            exp_run = {ids[i] for i in range(n) if ref[1].active.get(i)}
+            if set(ent) != exp_run:
+                col.violation(pid, "original_dag_executed_set_changed_after_compose", dict(executed=sorted(ent), expected=sorted(exp_run), source=S.render(sp)), rp)
+
+
+@job("comp19")
+def job_comp19(j):
+    rng = random.Random(j["seed"])
+    col = Collector()
+    for c in range(j["n_cases"]):
+        comp_case(col, rng, c, jobref=j)
+    return col.result()
